@@ -83,7 +83,29 @@ func NewExec(p *Program, fn *ssa.Function, fc *FuncContract, pc *PkgContracts) *
 	w := NewWorld(p.ModPath)
 	w.bv = p.bvTypes
 	return &Exec{W: w, Prog: p, Fn: fn, FC: fc, PC: pc, keys: map[string]*HeapKey{}, Abstr: map[string]bool{}, Unsound: map[string]bool{},
-		siteCtr: map[string]int{}, bitsDecl: bitsOf2(pc), recDefs: map[string]*recDef{}, recMemo: map[string]string{}, recReads: map[string]map[string]*smt.Term{}}
+		siteCtr: map[string]int{}, bitsDecl: bitsOfAll(p, pc), recDefs: map[string]*recDef{}, recMemo: map[string]string{}, recReads: map[string]map[string]*smt.Term{}}
+}
+
+// bitsOfAll: `bits T n` declarations of every package (a type's declaration lives with the type, and code of
+// other packages operates on it too); the function's own package wins on a name clash.
+func bitsOfAll(p *Program, pc *PkgContracts) map[string]int {
+	out := map[string]int{}
+	var paths []string
+	for k := range p.contracts {
+		paths = append(paths, k)
+	}
+	sort.Strings(paths)
+	for _, k := range paths {
+		if o := p.contracts[k]; o != nil {
+			for n, v := range o.Bits {
+				out[n] = v
+			}
+		}
+	}
+	for n, v := range bitsOf2(pc) {
+		out[n] = v
+	}
+	return out
 }
 
 func bitsOf2(pc *PkgContracts) map[string]int {
